@@ -230,6 +230,59 @@ example : strftime (mkDT 2022 1 3 7 56 37 0 0) ['%', '9', 'E'] = .err := by rfl
 theorem C17_flag_minus (fs : Str) : (fs.foldl Flags.apply {}).usePad = !fs.contains '-' := by
   rw [flags_usePad]; rfl
 
+/-- the padding choice after a flag string is decided by its last `_` / `0` -/
+def lastPad : Str → Pad → Pad
+  | [], p => p
+  | c :: r, p => lastPad r (if c = '_' then .space else if c = '0' then .zero else p)
+
+theorem foldl_pad (fs : Str) (f : Flags) : (fs.foldl Flags.apply f).pad = lastPad fs f.pad := by
+  induction fs generalizing f with
+  | nil => rfl
+  | cons c r ih =>
+    simp only [List.foldl_cons, lastPad]
+    rw [ih]
+    congr 1
+    unfold Flags.apply
+    by_cases h1 : c = '-'
+    · subst h1; simp
+    · by_cases h2 : c = '_'
+      · subst h2; simp
+      · by_cases h3 : c = '0'
+        · subst h3; simp
+        · by_cases h4 : c = '^'
+          · subst h4; simp
+          · by_cases h5 : c = '#'
+            · subst h5; simp
+            · simp [h1, h2, h3, h4, h5]
+
+/-- **Several flags on one directive: the last of `_` and `0` decides the padding character**,
+whatever other flags stand before, between or after them (with `C17_flag_minus`: `-` switches
+padding off wherever it stands; `C17_numeric_directive` turns this into the printed text). -/
+theorem C17_flag_last_pad_wins (fs gs : Str) (hg : ∀ c ∈ gs, c ≠ '_' ∧ c ≠ '0') :
+    ((fs ++ '_' :: gs).foldl Flags.apply {}).pad = .space ∧
+    ((fs ++ '0' :: gs).foldl Flags.apply {}).pad = .zero := by
+  have tail : ∀ (gs : Str) (p : Pad), (∀ c ∈ gs, c ≠ '_' ∧ c ≠ '0') → lastPad gs p = p := by
+    intro gs
+    induction gs with
+    | nil => intro p _; rfl
+    | cons c r ih =>
+      intro p h
+      have hc := h c (List.mem_cons_self)
+      simp only [lastPad, hc.1, hc.2, if_false]
+      exact ih p (fun x hx => h x (List.mem_cons_of_mem _ hx))
+  have app : ∀ (a b : Str) (p : Pad), lastPad (a ++ b) p = lastPad b (lastPad a p) := by
+    intro a
+    induction a with
+    | nil => intro b p; rfl
+    | cons c r ih => intro b p; simp only [List.cons_append, lastPad]; exact ih b _
+  constructor
+  · rw [foldl_pad, app]; simp only [lastPad, if_true]; exact tail gs _ hg
+  · rw [foldl_pad, app]
+    have : ('0' : Char) ≠ '_' := by decide
+    simp only [lastPad, this, if_false, if_true]; exact tail gs _ hg
+
+example : (("0_".toList).foldl Flags.apply {}).pad = .space ∧ (("_0".toList).foldl Flags.apply {}).pad = .zero := by decide
+
 /-- **Numeric directives.** `%Y %C %y %m %d %e %j %H %k %I %l %M %S %u %w %U %W %G %g %V %s` print
 their calendar field (`numericField`, in terms of the independent calendar) in decimal,
 right-aligned in the given width — the documented default width when none is given, *not* the
